@@ -1,6 +1,6 @@
 (* C19 — property theorems only.  Each is closed by [exact <lemma>] and followed by
    Print Assumptions; the statements are pinned here so they cannot be quietly weakened. *)
-From FB Require Import C19.Model C19.Acyclic C19.Theory C19.TheoryCoord C19.TheoryPom C19.TheoryFuel C19.TreeBasics C19.TreeBfs C19.TreeMediation C19.TreeOrder C19.TreeTheorems.
+From FB Require Import C19.Model C19.Acyclic C19.Theory C19.TheoryCoord C19.TheoryPom C19.TheoryCut C19.TheoryFuel C19.TreeBasics C19.TreeBfs C19.TreeMediation C19.TreeOrder C19.TreeTheorems.
 From Coq Require Import Sorting.Sorted.
 
 (* the scope table in the source (regenerated into ScopeGen.v on every run) is Maven's documented table *)
@@ -146,6 +146,30 @@ Theorem C19_tree_children_spec : forall mf f fs rs c sc t,
                (filter (transitive sc) (pd_deps pd)) (children t).
 Proof. exact tree_children_spec. Qed.
 Print Assumptions C19_tree_children_spec.
+
+(* the cut happens BEFORE resolution (converse of the above): a node resolves as soon as its effective POM exists and
+   the dependencies that are NOT cut resolve; nothing is asked of optional / non-transitive ones, so what lies behind a
+   cut edge (no document, an unusable document, an incompletable POM) cannot turn the answer into an error *)
+Theorem C19_tree_children_complete : forall mf f fs rs c sc r pd kids,
+  get_merged_pom mf fs rs c = Ok (r, pd) ->
+  Forall2 (fun d k => exists s', the_scope_table sc (dd_declared_scope d) = Some s'
+                                 /\ get_dependencies_tree mf f fs rs (dd_coord d) s' = Ok k)
+          (filter (transitive sc) (pd_deps pd)) kids ->
+  get_dependencies_tree mf (S f) fs rs c sc = Ok (Node (mkFound r c sc) kids).
+Proof. exact tree_children_complete. Qed.
+Print Assumptions C19_tree_children_complete.
+
+(* two file maps that agree on a node's effective POM and on the subtrees of its followed dependencies give the same
+   tree, whatever they hold behind the cut edges *)
+Theorem C19_cut_edges_irrelevant : forall mf f fs fs' rs c sc t,
+  get_dependencies_tree mf (S f) fs rs c sc = Ok t ->
+  get_merged_pom mf fs' rs c = get_merged_pom mf fs rs c ->
+  (forall d s', In d (pd_deps (match get_merged_pom mf fs rs c with Ok rp => snd rp | Err => mkPDone c [] [] [] end)) ->
+                transitive sc d = true ->
+                get_dependencies_tree mf f fs' rs (dd_coord d) s' = get_dependencies_tree mf f fs rs (dd_coord d) s') ->
+  get_dependencies_tree mf (S f) fs' rs c sc = Ok t.
+Proof. exact cut_edges_irrelevant. Qed.
+Print Assumptions C19_cut_edges_irrelevant.
 
 (* ---- the resolved list: trees of the roots, mediated by collision id, breadth first, no duplicates,
    every element recorded with the first repository serving its POM ---- *)
